@@ -90,13 +90,13 @@ CHECKS = {
     technique="TLA+ loop model checked by TLC; real SIMD evaluators driven through a tracing context and real contexts; trace validation (result identity + access ranges) by TLC",
     design="5/C12"),
  "C11": dict(
-    text="StaticInfo.tla defines soundness of the five compile-time traits against a run-time shape and a per-axis abstract domain (Const n | Clip m | Dyn) with concretisation and abstract transfer functions for transpose, flatten, reduce and broadcast; TLC checks soundness of the traits and of every transfer function on the bounded domain. The driver instantiates view TYPES from leaves of six static-knowledge kinds and programs with compile-time-constant or run-time arguments, logs the traits of the type and of the type eval() chose next to shape()/dim()/size() and all elements of OBJECTS for every run-time shape the leaf admits, and TraceStatic.tla validates soundness and completeness of the evaluation; binary views (concatenate with run-time / compile-time / None axis, add, stack) run over every pair of seven leaf kinds that compiles and every admitted pair of run-time shapes, and every object is additionally validated against the reference semantics (TraceOps.tla), so a result clamped to an operand's bound is rejected.",
-    note="Trusted: TLC, StaticInfo.tla, Denote, drv_static.cpp, drv_static2.cpp (combination table harness/drivers/static2_combos.inc found by trial compilation). Clipped-shape leaves compose only with flatten/reshape (compile-time API limitation); depth-3 types are not generated; the clamp/capacity hooks of the design are replaced by the end-to-end check 'eval returned every element'.",
+    text="StaticInfo.tla defines soundness of the five compile-time traits against a run-time shape and a per-axis abstract domain (Const n | Clip m | Dyn) with concretisation and abstract transfer functions for transpose, flatten, reduce and broadcast, and the index type the axes of a shape are joined into (AbsJoin); TLC checks soundness of the traits, of every transfer function and of the join on the bounded domain (drv_clipped binds the join: range of the library's common type, every extent read at a run-time position, product, for 34 clipped bound tuples x every extent tuple). The driver instantiates view TYPES from leaves of seven static-knowledge kinds and programs with compile-time-constant or run-time arguments, logs the traits of the type and of the type eval() chose next to shape()/dim()/size() and all elements of OBJECTS for every run-time shape the leaf admits, and TraceStatic.tla validates soundness and completeness of the evaluation; binary views (concatenate with run-time / compile-time / None axis, add, stack) run over every pair of seven leaf kinds that compiles and every admitted pair of run-time shapes, and every object is additionally validated against the reference semantics (TraceOps.tla), so a result clamped to an operand's bound is rejected.",
+    note="Trusted: TLC, StaticInfo.tla, Denote, drv_static.cpp, drv_static2.cpp (combination table harness/drivers/static2_combos.inc found by trial compilation). Array-of-clipped-shape leaves compose only with flatten/reshape (compile-time API limitation; the tuple-of-clipped leaf composes with every view); depth-3 types are not generated; the clamp/capacity hooks of the design are replaced by the end-to-end check 'eval returned every element'.",
     technique="TLA+ abstract-interpretation model checked by TLC; generated view types instantiated over every admitted run-time shape; trace validation by TLC",
     design="5/C11"),
  "C09": dict(
     text="No operator of the reference specification mentions a container kind; the same values are executed under every container / static-knowledge kind (compile-time constant tuples, clipped integers, std::array, raw arrays, nmtools/utl static_vector, std::vector, utl::vector, utl::array, run-time tuples, mixed pairs; raw, nested, fixed, hybrid, dynamic and ndarray_t arrays; compile-time and run-time axis/shape arguments) in three builds (g++ with assertions, g++ -O2 -DNDEBUG, clang++) and TLC validates every result against the one reference (a compile-time rejection counts as 'reports failure'), which proves pairwise agreement and agreement with the compile-time evaluation; the addressing and broadcasting models are model-checked as part of the run.",
-    note="Trusted: TLC, Denote, drv_config.cpp (macro-instantiated kinds over a fixed value set), drv_kinds.cpp (kinds matrix: 20 array kinds incl. the 15 ndarray kind tags x 34 view events x compile-time shapes). The run-time kinds additionally run the complete tables of C01, C05, C06, C11, C19, C20. The NMTOOLS_DISABLE_STL build is attempted in the thorough tier only.",
+    note="Trusted: TLC, Denote, drv_config.cpp (macro-instantiated kinds over a fixed value set), drv_kinds.cpp (kinds matrix: 20 array kinds incl. the 15 ndarray kind tags x 36 view events x 5 (quick) / 9 (thorough) compile-time shapes). The run-time kinds additionally run the complete tables of C01, C05, C06, C11, C19, C20. The NMTOOLS_DISABLE_STL build is attempted in the thorough tier only.",
     technique="single TLA+ reference semantics; trace validation by TLC of the same cases under every configuration",
     design="5/C09"),
  "C02": dict(
